@@ -413,6 +413,8 @@ pub fn gen_doc_path(r: &mut Rng, v: &Value) -> String {
                             let k = o.keys().nth(r.below(o.len() as u64) as usize).unwrap();
                             t.push_str(&keyname(r, k));
                             if let Some(x) = o.get(k) { cur = x; }
+                            // lax `[*]` / `.*` right after a member step (on whatever the member is)
+                            if r.chance(1, 5) { t.push_str(if r.chance(2, 3) { "[*]" } else { ".*" }); }
                         }
                     }
                     _ => { t.push_str(*r.pick(&[".a", "[0]", "[*]", ".*", "[last]"])); }
